@@ -9,9 +9,9 @@ cd $WT
 FF=""; [ -n "$FEAT" ] && FF="--features $FEAT"
 echo "== suite with change"; S1=$(cargo test --offline 2>&1 | grep -E "^test result" | head -1); echo "$S1"
 echo "== demo with change"; D1=$(cargo test --offline $FF --test seeded_demo 2>&1 | grep -E "^test result" | head -1); echo "$D1"
-git stash push -q -- src
+git diff -- src > /tmp/seed/$ID.cur.diff; git checkout -q -- src   # (no git stash: refs/stash is shared by all worktrees)
 echo "== demo without change"; D0=$(cargo test --offline $FF --test seeded_demo 2>&1 | grep -E "^test result" | head -1); echo "$D0"
-git stash pop -q
+git apply /tmp/seed/$ID.cur.diff
 cd /verif
 git -C /repo apply $OUT/patch.diff || { echo "patch does not apply to /repo"; exit 1; }
 RES=""
